@@ -141,11 +141,8 @@ impl Group for C08FeeRestart {
                                         signed_any = true;
                                         co.tags.insert("sweep:signed".into());
                                         log.push((now, fee * 1000));
-                                        let (limit, wlen) = {
-                                            let s = n.get_state();
-                                            let v = &s.fee_velocity_control;
-                                            (v.limit, (v.buckets.len() as u64 - 1) * v.bucket_interval as u64)
-                                        };
+                                        // limit and window from the configured policy spec, not from the node's control
+                                        let (limit, wlen): (u64, u64) = (spec.0, if spec.1 == "h" { 11 * 300 } else { 23 * 3600 });
                                         if limit != u64::MAX {
                                             if let Some((t0, sum)) = window_violation(&log, wlen, limit) {
                                                 co.violations.push(Violation {
